@@ -21,6 +21,22 @@ def relevant(mm, sess, runs):
 
 @props.prop('C03')
 def c03(tier):
+    import gcs, vlib
+    q = tier == 'quick'
+    gcov = {}
+
+    def structural(verdict, sessions, wd):
+        # snapshots before/after forced collections: period 1 (every instruction) on short programs,
+        # longer periods with sampling otherwise
+        plans = [
+            {'kind': 'alloc', 'count': 4 if q else 80, 'period': 1, 'every': 40 if q else 25, 'maxev': 40},
+            {'kind': 'cont', 'count': 4 if q else 80, 'period': 1, 'every': 40 if q else 25, 'maxev': 40},
+            {'kind': 'lang', 'count': 4 if q else 80, 'period': 2, 'every': 30 if q else 25, 'maxev': 40},
+            {'kind': 'scope', 'count': 2 if q else 40, 'period': 3, 'every': 40 if q else 25, 'maxev': 40},
+            {'kind': 'sym', 'count': 3 if q else 60, 'period': 7, 'every': 40 if q else 25, 'maxev': 40},
+        ]
+        gcov.update(gcs.run(verdict, wd, tier, plans, vlib.seed()))
+
     def extra(sessions, ends):
         runs = 0
         colls = 0
@@ -29,7 +45,7 @@ def c03(tier):
                 for r in s['runs']:
                     if r['cfg'].startswith('gc'):
                         runs += 1
-        return {'runs_under_forced_collection': runs,
+        return {'structural_half': gcov, 'runs_under_forced_collection': runs,
                 'schedules': 'none; every k-th instruction for k in %s; two seeded pseudo-random schedules'
                              % ('1,2,3,5,8,13,16' if tier == 'quick' else '1..16')}
 
@@ -38,4 +54,4 @@ def c03(tier):
         'sessions of the allocation-heavy templates and of the C01/C02/C05 generators, each executed with no forced '
         'collection, with a forced collection before every k-th instruction, and under two pseudo-random schedules; '
         'every run is validated against the single collector-free CEK behaviour',
-        extra_cov=extra)
+        extra_cov=extra, extra_check=structural)
